@@ -2,11 +2,29 @@ import PhyVerif.Driver.Json
 import PhyVerif.Driver.Rat
 import PhyVerif.Model.C13
 import PhyVerif.Model.C13c
+import PhyVerif.Model.C13d
 namespace PhyVerif.Driver
 open Lean PhyVerif.C13
 
 def nameOfStr (s : String) : PhyVerif.C13.Name := s.splitOn "."
-def strOfName (n : PhyVerif.C13.Name) : String := ".".intercalate n
+
+/-- the driver's reading of rows: a time in seconds as the cell `floor(q * 2^40)` (order preserving), a token row as one
+cell (its index) -/
+def drvInterp : Interp :=
+  { encQ := fun q => (q * 1099511627776).floor, cells := fun _ i => [.num i], trail := fun _ => [] }
+
+/-- C04's loader model on the WHOLE output directory (`project`) -/
+def jReload (out : FDir) : Json :=
+  match PhyVerif.C04.load (fun a => a) (project drvInterp out) with
+  | .error e => Json.mkObj [("err", Json.str (reprStr e))]
+  | .ok (lv, _) =>
+    let tm := match lv.times with | .stored t => t | .samplesOverRate t => t
+    let sm := match lv.samples with | .file t => t | .roundedTimes t => t
+    Json.mkObj [("err", Json.null), ("n_times", jNat tm.data.length),
+      ("stored", Json.bool (match lv.times with | .stored _ => true | _ => false)),
+      ("samples", jInts (arrSummary sm).2), ("sc", jInts (arrSummary lv.spikeClusters).2),
+      ("st", jInts (arrSummary lv.spikeTemplates).2), ("n_channels", jNat lv.channelMap.data.length),
+      ("has_templates", Json.bool lv.templates.isSome)]
 
 /-- a directory listing entry `{name, tag, rows, vec2d?, vals?}`: `vals` (integers) gives the rows of a 1-D
 integer file, otherwise the rows are tokens -/
@@ -46,12 +64,15 @@ def getView (j : Json) : R View := do
       let s ← if hasFld j "samples_file" then some <$> getInts j "samples_file" else pure none
       pure (SpikeFile.inSeconds t s))
     else SpikeFile.inSamples <$> getInts j "samples"
-  let st := loadSpikeSamples rate file
-  pure { rate := rate, samples := st.1, times := st.2, spikeClusters := ← getNats j "sc",
-         spikeTemplates := ← getNats j "st", amplitudes := List.replicate namp 0,
-         nTemplates := ← getNat j "n_templates", channelMap := ← getNats j "channel_map",
-         channelProbes := ← getNats j "channel_probes",
-         featRows := ← if hasFld j "feat_rows" then some <$> getNat j "feat_rows" else pure none }
+  let sc ← getNats j "sc"
+  let st ← getNats j "st"
+  let nt ← getNat j "n_templates"
+  let cm ← getNats j "channel_map"
+  let cp ← getNats j "channel_probes"
+  let fr ← if hasFld j "feat_rows" then some <$> getNat j "feat_rows" else pure none
+  -- samples and times are both what `_load_spike_samples` makes of the one spike file (`viewOfFile`)
+  let rest : PhyVerif.C13.View := ⟨rate, [], [], sc, st, List.replicate namp 0, nt, cm, cp, fr⟩
+  pure (viewOfFile rate file rest)
 
 def jErr : Option Err → Json
   | none => Json.null
@@ -107,6 +128,7 @@ def runC13 (op : String) (j : Json) : R Json := do
       ("out", jList jOutEntry o.fs.out),
       ("times", jRats v.times), ("samples", jInts v.samples),
       ("table", table),
+      ("reload", if o.err.isNone then jReload o.fs.out else Json.null),
       ("rows_ok", Json.bool (rowsOKb v o.fs.out)),
       ("frame_ok", Json.bool (frameOKb src o.fs.src))])
   | "frame" =>
